@@ -60,6 +60,33 @@ pub struct XargsScenario {
     /// standard output (`cmd` is then `["echo"]`, which is what the limits are charged with)
     #[serde(default)]
     pub echo_mode: bool,
+    #[serde(default)]
+    pub extra: XExtra,
+}
+
+/// Further dimensions of an xargs run (all off by default).
+#[derive(Clone, Debug, Default, PartialEq, Eq, Serialize, Deserialize)]
+pub struct XExtra {
+    /// environment variables on top of the base environment (see `crate::ambient`)
+    #[serde(default)]
+    pub ambient: crate::ambient::Ambient,
+    /// the argument stream is not simulated: xargs really opens and reads `-a FILE`
+    /// (scenario must carry `Opt::ArgFile`, read plan is ignored)
+    #[serde(default)]
+    pub real_arg_file: Option<ArgFileKind>,
+    /// run xargs_main on a thread of its own with this much stack (KiB): what a small
+    /// `ulimit -s` gives the main thread of the executable
+    #[serde(default)]
+    pub stack_kib: Option<u32>,
+}
+
+#[derive(Clone, Debug, PartialEq, Eq, Serialize, Deserialize)]
+pub enum ArgFileKind {
+    /// an ordinary file in the scratch directory
+    Regular,
+    /// `/proc/thread-self/comm`: a regular file by its metadata, size 0, whose content is the
+    /// thread's name plus a newline (`input` must be that: at most 15 bytes, no NUL, then LF)
+    ProcComm,
 }
 
 /// What really runs in pass-through mode. `cmd[0]` of the scenario is then a
@@ -106,7 +133,11 @@ impl XargsScenario {
                 }
                 Opt::ArgFile => {
                     v.push("-a".into());
-                    v.push(ARG_FILE_NAME.into());
+                    if self.extra.real_arg_file == Some(ArgFileKind::ProcComm) {
+                        v.push("/proc/thread-self/comm".into());
+                    } else {
+                        v.push(ARG_FILE_NAME.into());
+                    }
                 }
                 Opt::Null => v.push("-0".into()),
                 Opt::Delim(d) => {
@@ -241,7 +272,8 @@ pub fn run_xargs_with(sc: &XargsScenario, plan: &[ReadOp], ctx: &mut Ctx) -> Xar
         },
         spawn_count: 0,
         spawn_budget: SPAWN_BUDGET,
-        input: Some(stream),
+        // with a real -a FILE the seam stays out of the way: xargs reads the file itself
+        input: if sc.extra.real_arg_file.is_some() && arg_file { None } else { Some(stream) },
         on_spawn: None,
     };
     // real children: what is left on fd 0 of this process stands for xargs' own input stream
@@ -253,13 +285,49 @@ pub fn run_xargs_with(sc: &XargsScenario, plan: &[ReadOp], ctx: &mut Ctx) -> Xar
     }
     let argv = sc.argv_with(&cmd);
     let capture = if sc.echo_mode { crate::sys::FdCapture::install(1) } else { None };
-    let (status, stderr) = ctx.run_guarded(Box::new(world), move || {
-        let refs: Vec<&str> = argv.iter().map(|s| s.as_str()).collect();
-        let st = findutils::xargs::xargs_main(&refs);
-        use std::io::Write;
-        let _ = std::io::stdout().flush();
-        st
-    });
+    let comm = sc.extra.real_arg_file == Some(ArgFileKind::ProcComm) && arg_file;
+    let name: Vec<u8> = sc.input.0.iter().copied().take_while(|b| *b != b'\n' && *b != 0).take(15).collect();
+    let guard = sc.extra.ambient.enter();
+    let (status, stderr) = match sc.extra.stack_kib {
+        None => ctx.run_guarded(Box::new(world), move || {
+            let _name = if comm { Some(ThreadName::set(&name)) } else { None };
+            let refs: Vec<&str> = argv.iter().map(|s| s.as_str()).collect();
+            let st = findutils::xargs::xargs_main(&refs);
+            use std::io::Write;
+            let _ = std::io::stdout().flush();
+            st
+        }),
+        Some(kib) => {
+            // the world lives in a thread-local slot: install it on the small thread itself
+            // (the world holds Rc handles; this thread only waits while the other one runs, so
+            // they are never touched from two threads at once)
+            struct AssertSend<T>(T);
+            unsafe impl<T> Send for AssertSend<T> {}
+            let mut out = None;
+            let pack = AssertSend((&mut *ctx, &mut out, world, argv, name));
+            std::thread::scope(|s| {
+                std::thread::Builder::new()
+                    .stack_size((kib as usize) << 10)
+                    .spawn_scoped(s, move || {
+                        let pack = pack;
+                        let AssertSend((ctx_ref, out_ref, world, argv, name)) = pack;
+                        *out_ref = Some(ctx_ref.run_guarded(Box::new(world), move || {
+                            let _name = if comm { Some(ThreadName::set(&name)) } else { None };
+                            let refs: Vec<&str> = argv.iter().map(|s| s.as_str()).collect();
+                            let st = findutils::xargs::xargs_main(&refs);
+                            use std::io::Write;
+                            let _ = std::io::stdout().flush();
+                            st
+                        }));
+                    })
+                    .expect("small-stack thread")
+                    .join()
+                    .expect("small-stack thread ended");
+            });
+            out.expect("run result")
+        }
+    };
+    drop(guard);
     let stdout = capture.map(|c| c.finish()).unwrap_or_default();
     let log = Rc::try_unwrap(log)
         .map(|c| c.into_inner())
@@ -278,6 +346,35 @@ pub fn run_xargs_with(sc: &XargsScenario, plan: &[ReadOp], ctx: &mut Ctx) -> Xar
         child_log,
         child_stdin,
         stdout,
+    }
+}
+
+/// Names the calling thread for the length of a run (what `/proc/thread-self/comm` shows).
+struct ThreadName(Vec<u8>);
+
+impl ThreadName {
+    fn set(name: &[u8]) -> ThreadName {
+        let mut old = [0u8; 17];
+        unsafe {
+            libc::prctl(libc::PR_GET_NAME, old.as_mut_ptr());
+        }
+        let old: Vec<u8> = old.iter().copied().take_while(|b| *b != 0).collect();
+        let mut n = name.to_vec();
+        n.push(0);
+        unsafe {
+            libc::prctl(libc::PR_SET_NAME, n.as_ptr());
+        }
+        ThreadName(old)
+    }
+}
+
+impl Drop for ThreadName {
+    fn drop(&mut self) {
+        let mut n = self.0.clone();
+        n.push(0);
+        unsafe {
+            libc::prctl(libc::PR_SET_NAME, n.as_ptr());
+        }
     }
 }
 
